@@ -4,7 +4,7 @@
      value      — printed through sql.NewStringVal (a StrV node): stream-selector label names and values, the string operand of a
                   label filter, the text of a line filter (or the literal extracted from its expression), the components of a json
                   path, the names and the expression of `| regexp`, the label and value of a `drop` parameter, by/without labels,
-                  the unwrapped label;
+                  the unwrapped label, the text and the field names of a line_format template;
      identifier — spliced raw-quoted (QRaw): the label of a label filter (restricted by the LogQL lexer);
      number     — a numeric literal, printed as fmt "%f" text.
    Two requests are VARIANTS when they are the same request up to the content of the values.  The planners ask a handful of
@@ -66,6 +66,15 @@ Definition drop_key_only (p : string * option string) : bool :=
 Definition drop_variant (ps ps' : list (string * option string)) : Prop :=
   Forall2 (fun p p' => drop_key_only p = drop_key_only p') ps ps'.
 
+(* line_format: both templates are outside the planner's fragment (no statement), or both are read and give the same format() call up to
+   the content of its values (the text between the fields and the field names are values: as many fields) *)
+Definition tpl_variant (t t' : string) : Prop :=
+  match tpl_parse t, tpl_parse t' with
+  | TOk ns, TOk ns' => erase (tpl_sql ns) = erase (tpl_sql ns')   (* the same column expression up to the content of its values *)
+  | TOk _, _ | _, TOk _ => False
+  | _, _ => True
+  end.
+
 Definition unwrap_variant (l l' : string) : Prop := String.eqb l "_entry" = String.eqb l' "_entry".
 
 (* planner objects (what planner.plan() builds): the same object tree, value parameters as above *)
@@ -95,7 +104,7 @@ Fixpoint planner_variant (p p' : planner) {struct p} : Prop :=
   | PQuantileP q d x, PQuantileP q' d' x' => q = q' /\ d = d' /\ planner_variant x x'
   | PStepFixP d x, PStepFixP d' x' => d = d' /\ planner_variant x x'
   | PMetrics15 f d, PMetrics15 f' d' => f = f' /\ d = d'
-  | PLineFormatP t x, PLineFormatP t' x' => t = t' /\ planner_variant x x'
+  | PLineFormatP t x, PLineFormatP t' x' => tpl_variant t t' /\ planner_variant x x'
   | _, _ => False
   end.
 
@@ -122,7 +131,7 @@ Definition stage_variant (s s' : stage) : Prop :=
       (* the metric planner asks whether the filter is empty (|= "" lets a rate run on the 15-second roll-up) *)
   | PLabelFilter f, PLabelFilter f' => lf_variant f f'
   | PParser fn ps, PParser fn' ps' => fn = fn' /\ parser_variant fn ps ps'
-  | PLineFormat t, PLineFormat t' => t = t'
+  | PLineFormat t, PLineFormat t' => tpl_variant t t'
   | PLabelFormat, PLabelFormat => True
   | PUnwrap l, PUnwrap l' => unwrap_variant l l'
   | PDrop ps, PDrop ps' => drop_variant ps ps'
